@@ -237,6 +237,24 @@ def run_defaults(case, ctx):
       ctx.count("defaults_checked")
       if got != want:
         ctx.violation("defaults", "target %s opts %r: (cutoff, nr, cutoff_rho, nrho) = %r, documented %r" % (target, opts, got, want), what="defaults")
+  # history: a model WITHOUT a [Tabulation] section (or with an empty one) read after a model with an explicit grid
+  # must still get the documented defaults (and the default target LAMMPS)
+  pair_only = "[Pair]\nAl-Al : as.constant 1.0\n"
+  for prev in ("nr : 12\ncutoff : 3.0\n", "dr : 0.01\ncutoff : 2.0\nnrho : 5\ncutoff_rho : 7.0\n", None):
+    for empty in ("", "[Tabulation]\n\n", "[Tabulation]\ntarget : GULP\n\n"):
+      try:
+        if prev is not None:
+          routes.read_config("[Tabulation]\ntarget : LAMMPS\n%s\n%s" % (prev, pair_only))
+        tab = routes.read_config(empty + pair_only)
+      except Exception as e:
+        et, fn = exc_sig(e)
+        ctx.violation("defaults_exception", "model without tabulation options: %s %s" % (et, e), what="defaults_exception")
+        continue
+      ctx.count("defaults_checked")
+      ctx.cls("defaults_after_other_model" if prev else "defaults_first_model")
+      if (tab.cutoff, tab.nr) != (10.0, 1001):
+        ctx.violation("defaults", "model with %s read after a model with '%s': (cutoff, nr) = %r, documented defaults (10.0, 1001)" % (
+          "no [Tabulation] section" if not empty else "a [Tabulation] section without grid options", (prev or "").replace("\n", "; "), (tab.cutoff, tab.nr)), what="defaults", mech="history")
   ctx.nontrivial(True)
 
 
